@@ -270,8 +270,15 @@ def hh_history(chk, n):
                     hist.append(("query", i, th))
                 sk = sks[i]
                 N = sum(true[i].values())
+                # hh[key] is read before anything refreshes the Python-side cache, and again afterwards:
+                # it is a function of the tables alone
+                watch = sorted(set(list(true[i].keys()) + [kk[:mkl] for kk in keys]))
+                before = {key: int(sk[key]) for key in watch}
                 # C03: never over-count, never report an un-added key
                 rep = sk.query(1000, 0)
+                for key in watch:
+                    if int(sk[key]) != before[key]:
+                        return {"key": "HeavyHitters(%d,%d,%d) history %r" % (w, d, mkl, hist), "property": None, "history": repr(hist), "observed": "hh[%r] was %d before query(1000, 0) and %d after it (same tables)" % (key, before[key], int(sk[key])), "how": "bounded oracle on the real class"}
                 for key, cnt in rep:
                     if cnt > true[i][key] or (cnt > 0 and true[i][key] == 0):
                         return {"key": "HeavyHitters(%d,%d,%d) history %r" % (w, d, mkl, hist), "property": "C03", "history": repr(hist), "observed": "query reports %r with count %d, true count %d" % (key, cnt, true[i][key]), "how": "bounded oracle on the real class"}
